@@ -9,6 +9,10 @@ import sys
 
 def dump(state_name: str, order: list[str]) -> dict:
     for m in order:
+        if m == "STIR":                      # use the rest of the library in ways that fail first (harness/poison.py)
+            from . import poison
+            poison.stir()
+            continue
         importlib.import_module("aioswitcher." + m)
     from aioswitcher import api, bridge
     from aioswitcher.device import (DeviceCategory, DeviceState, DeviceType, ShutterDirection, SwitcherPowerPlug, SwitcherShutter,
